@@ -820,9 +820,10 @@ def ignore_specs(sh, tier):
     if tier == 'quick':
         keep = [s for s in specs if len(s) == 1] + [s for s in specs if len(s) == 2][:4] + [s for s in specs if len(s) == 3][:1]
         return keep
-    # thorough: every specification of one or two elements, and a spread of the three-element ones
+    # thorough: every specification of one element, a spread of the two-element ones and two of the three-element ones
+    two = [s for s in specs if len(s) == 2]
     three = [s for s in specs if len(s) == 3]
-    return [s for s in specs if len(s) <= 2] + three[::max(1, len(three) // 4)][:4]
+    return [s for s in specs if len(s) == 1] + two[::max(1, len(two) // 8)][:8] + three[::max(1, len(three) // 2)][:2]
 
 
 KEYMAPS_Q = ('raw', 'rawsent', 'str', 'strflat', 'picklenf', 'md5nf', 'pyhash')
@@ -896,7 +897,7 @@ def plan(prop, tier):
             if not q and sh['nkwo'] > 1:
                 continue          # thorough: shapes with at most one keyword-only parameter (the ignore machinery treats them alike)
             for spec in ignore_specs(sh, tier):
-                for km in (('raw', 'strflat') if q else ('raw', 'rawnf', 'strflat', 'md5')):
+                for km in (('raw', 'strflat') if q else ('raw', 'rawnf', 'strflat')):
                     if km in ('raw', 'strflat', 'md5') and sh['varargs']:
                         km = 'rawsent'     # flat without sentinel + *args is not information-preserving (C10)
                     add(sh, km, ignore=list(spec), endtoend=(km in ('raw', 'rawsent')))
